@@ -161,6 +161,21 @@ func raceBuffer(ov *raceOverlap, scripts [][]int) {
 		shared, _ = b.NewConsumer()
 	}
 	var lastNote atomic.Pointer[bigbuff.FixedBufferCleanerNotification]
+	readNote := func() {
+		if n := lastNote.Load(); n != nil {
+			sum := n.Size + n.Trim
+			for _, o := range n.Offsets {
+				sum += o
+			}
+			_ = sum
+		}
+	}
+	if len(scripts) > 0 && len(scripts[0]) > 0 && scripts[0][0]%3 == 1 {
+		// a third of the programs run with a forcing cleaner (and a callback that keeps what it is handed) from the start
+		_ = b.SetCleanerConfig(bigbuff.CleanerConfig{Cleaner: bigbuff.FixedBufferCleaner(6, 3, func(n bigbuff.FixedBufferCleanerNotification) {
+			lastNote.Store(&n)
+		}), Cooldown: 0})
+	}
 	var sharedMu sync.Mutex // only guards the harness's own "pending reads" counter
 	pendingShared := 0
 	var seq atomic.Int64
@@ -259,6 +274,7 @@ func raceBuffer(ov *raceOverlap, scripts [][]int) {
 				d := ov.enter("Size")
 				_ = b.Size()
 				d()
+				readNote()
 			case op < 84:
 				if shared != nil {
 					d := ov.enter("Diff")
